@@ -38,6 +38,10 @@ enum Unit {
     Guarded { outer: usize, g: usize, d: usize },
     /// choice clauses with out-of-line calls between them
     Calls { inner: usize, outer: usize },
+    /// one choice node bound to two outputs with m other (choice) outputs
+    /// around / between them: the child built at a small budget has to keep
+    /// the repeated value alive (possibly spilled) across the other outputs
+    FarRepeat { m: usize },
 }
 
 const CHOICE_OPS: [B; 4] = [B::Min, B::Max, B::And, B::Or];
@@ -77,6 +81,9 @@ fn units(tier: Tier) -> Vec<Unit> {
         for outer in 0..4 {
             v.push(Unit::Calls { inner, outer });
         }
+    }
+    for m in 1..=6 {
+        v.push(Unit::FarRepeat { m });
     }
     v
 }
@@ -569,7 +576,7 @@ impl Check for C04 {
     }
     fn meta(&self, tier: Tier) -> Meta {
         Meta {
-            rule: "case = program with >= 1 choice clause; programs: every DAG up to the node bound over leaves {X,Y,0.5} and ops {min,max,and,or,add,neg} (clauses sharing operands, feeding each other, with immediates), chains of k clauses (k up to 65) in 4 kind patterns x 3 immediate patterns; 'guarded' programs outer(G, D+c) with outer in {min,max}, G and D every choice kind in reg/reg, reg/imm and imm/reg form, c in {0,+10,-10}, both operand orders (dead clauses of every form between live ones); for every box over per-axis endpoints {-1,0,0.5,1} (100 boxes, degenerate ones included): a trace is taken from the interval evaluator on the box and from the point evaluator at each of its corner/edge/centre points, on VM<255>, VM<3> and JIT; simplify must succeed; the child is compared bit-for-bit with the ORIGINAL function at every sample point of the traced domain under point, float-slice and grad-slice evaluators; variable map, output count and size are checked; chains of nested simplifications over sub-boxes (halves, quadrants, centre) up to the nesting bound; VM<255> is also simplified into budgets 3, 4 and 12".into(),
+            rule: "case = program with >= 1 choice clause; programs: every DAG up to the node bound over leaves {X,Y,0.5} and ops {min,max,and,or,add,neg} (clauses sharing operands, feeding each other, with immediates), chains of k clauses (k up to 65) in 4 kind patterns x 3 immediate patterns; 'guarded' programs outer(G, D+c) with outer in {min,max}, G and D every choice kind in reg/reg, reg/imm and imm/reg form, c in {0,+10,-10}, both operand orders (dead clauses of every form between live ones); one choice node bound to two outputs with m = 1..6 other outputs around / between them; for every box over per-axis endpoints {-1,0,0.5,1} (100 boxes, degenerate ones included): a trace is taken from the interval evaluator on the box and from the point evaluator at each of its corner/edge/centre points, on VM<255>, VM<3> and JIT; simplify must succeed; the child is compared bit-for-bit with the ORIGINAL function at every sample point of the traced domain under point, float-slice and grad-slice evaluators; variable map, output count and size are checked; chains of nested simplifications over sub-boxes (halves, quadrants, centre) up to the nesting bound; VM<255> is also simplified into budgets 3, 4 and 12".into(),
             bounds: match tier {
                 Tier::Quick => "DAG nodes <= 2, nesting depth 2 (chains of clauses: depth 3), JIT on every 7th box".into(),
                 Tier::Thorough => "DAG nodes <= 3, nesting depth 3 (VM) / 2 (JIT), all boxes".into(),
@@ -611,6 +618,35 @@ impl Check for C04 {
                             let p = prog::calls_between_choices(ops[inner], ops[outer], h, g, third, imm);
                             check_prog(cx, &mut sub, &p, tier, true);
                         }
+                    }
+                }
+            }
+            Unit::FarRepeat { m } => {
+                for variant in 0..2 {
+                    for hop in [B::Min, B::Max] {
+                        let mut q = Prog::default();
+                        let x = q.push(POp::Var(0));
+                        let y = q.push(POp::Var(1));
+                        let h = q.push(POp::Bin(hop, x, y));
+                        let others: Vec<usize> = (0..m)
+                            .map(|i| {
+                                let k = q.push(POp::Const(0.25 * (i as f32 + 1.0)));
+                                let t = q.push(POp::Bin(B::Add, x, k));
+                                if i % 2 == 0 { q.push(POp::Bin(B::Max, t, y)) } else { q.push(POp::Bin(B::Sub, t, y)) }
+                            })
+                            .collect();
+                        let mut roots = vec![];
+                        if variant == 0 {
+                            roots.push(h);
+                            roots.extend(&others);
+                        } else {
+                            roots.push(others[0]);
+                            roots.push(h);
+                            roots.extend(&others[1..]);
+                        }
+                        roots.push(h);
+                        q.roots = roots;
+                        check_prog(cx, &mut sub, &q, tier, true);
                     }
                 }
             }
